@@ -1,6 +1,7 @@
 import BoboVerif.Model.ClusterD
 import BoboVerif.Lemmas.RemoteJoin
 import BoboVerif.Lemmas.Net
+import BoboVerif.Lemmas.LocalStarts
 /-!
 The decider-level cluster refines, per run key, the abstract replication
 network of Lemmas/Net.lean: an input is a `say` (given that local processing is
@@ -52,8 +53,9 @@ structure R {n : Nat} (ph pa id : String) (cs : CState n ε) (ns : Bobo.Net.St n
   know : ∀ i, ns.know i = abs (cs.node i) ph pa id
   flight : ∀ i j, ns.flight i j = (cs.flight i j).map (msgSt ph pa id)
   pending : ∀ i j, ns.pending i j = false
+  wf : ∀ i, TableWF (cs.node i).table
 
-theorem sim_step {n : Nat} (c : Cfg ε) (hc : c.caching = true) (hns : NoSing c) (hLJ : LocalIsJoin c)
+theorem sim_step {n : Nat} (c : Cfg ε) (hc : c.caching = true) (hns : NoSing c)
     (ph pa id : String) (hk : (c.getPattern ph pa).isSome = true)
     (cs cs' : CState n ε) (ns : Bobo.Net.St n) (hR : R ph pa id cs ns) (hI : Bobo.Net.Inv ns)
     (st : CStep n ε) (hstep : cstep c cs st = some cs') :
@@ -68,14 +70,21 @@ theorem sim_step {n : Nat} (c : Cfg ε) (hc : c.caching = true) (hns : NoSing c)
       simp only [hl] at hstep
       by_cases hroom : roomFor c (cs.node i) nt.completed nt.halted = true
       · simp only [hroom, Bool.not_true, Bool.false_eq_true, if_false] at hstep
-        have habs := hLJ _ _ _ _ _ hl hroom ph pa id hk
+        have hroom' := hroom
+        simp only [roomFor, Bool.and_eq_true, decide_eq_true_eq] at hroom'
+        obtain ⟨hwf', habsAll⟩ := local_is_join c hc _ _ _ _ _ (hR.wf i) hl hroom'.1 hroom'.2
+        have habs := habsAll ph pa id
+        have hwfset : ∀ k, TableWF (setNode cs.node i s' k).table := by
+          intro k; simp only [setNode]; split
+          · exact hwf'
+          · exact hR.wf k
         cases ch
         · -- nothing changed: stutter
           simp only [Bool.false_eq_true, if_false, Option.some.injEq] at hstep
           subst hstep
           obtain ⟨h1, h2, h3⟩ := not_changed_lists_empty c _ _ _ _ hl
           rw [h1, h2, h3, absMsg_nil, join_bot_right] at habs
-          refine ⟨ns, ⟨fun k => ?_, hR.flight, hR.pending⟩, hI⟩
+          refine ⟨ns, ⟨fun k => ?_, hR.flight, hR.pending, hwfset⟩, hI⟩
           rw [hR.know k]
           simp only [setNode]
           split
@@ -83,7 +92,7 @@ theorem sim_step {n : Nat} (c : Cfg ε) (hc : c.caching = true) (hns : NoSing c)
           · rfl
         · simp only [if_true, Option.some.injEq] at hstep
           subst hstep
-          refine ⟨Bobo.Net.step ns (.say i (absMsg nt.completed nt.halted nt.updated ph pa id)), ⟨?_, ?_, ?_⟩,
+          refine ⟨Bobo.Net.step ns (.say i (absMsg nt.completed nt.halted nt.updated ph pa id)), ⟨?_, ?_, ?_, hwfset⟩,
             Bobo.Net.inv_step ns hI _⟩
           · intro k
             simp only [Bobo.Net.step, Bobo.Net.upd, setNode]
@@ -118,7 +127,11 @@ theorem sim_step {n : Nat} (c : Cfg ε) (hc : c.caching = true) (hns : NoSing c)
           have habs := remote_abs_after c hc hns (cs.node j) s' nt m.comp m.halt m.upd hroom.1 hroom.2 hr ph pa id hk
           have hget : (ns.flight i j)[k]? = some (msgSt ph pa id m) := by
             rw [hR.flight i j, List.getElem?_map, hm]; rfl
-          refine ⟨Bobo.Net.step ns (.deliver i j k remove), ⟨?_, ?_, ?_⟩, Bobo.Net.inv_step ns hI _⟩
+          have hwfset : ∀ a, TableWF (setNode cs.node j s' a).table := by
+            intro a; simp only [setNode]; split
+            · exact wf_remoteStep ahead true c _ _ _ _ _ _ (hR.wf j) hr
+            · exact hR.wf a
+          refine ⟨Bobo.Net.step ns (.deliver i j k remove), ⟨?_, ?_, ?_, hwfset⟩, Bobo.Net.inv_step ns hI _⟩
           · intro a
             simp only [Bobo.Net.step, hget, Bobo.Net.upd, setNode]
             split
@@ -140,8 +153,9 @@ theorem sim_init {n : Nat} (ph pa id : String) : R ph pa id (cinit n ε) (Bobo.N
   know := fun _ => by simp [Bobo.Net.init, cinit, abs, inCache, Table.runAt, Table.runsFrom, lookup, stOf]
   flight := fun _ _ => by simp [Bobo.Net.init, cinit]
   pending := fun _ _ => rfl
+  wf := fun _ => wf_empty
 
-theorem sim_run {n : Nat} (c : Cfg ε) (hc : c.caching = true) (hns : NoSing c) (hLJ : LocalIsJoin c)
+theorem sim_run {n : Nat} (c : Cfg ε) (hc : c.caching = true) (hns : NoSing c)
     (ph pa id : String) (hk : (c.getPattern ph pa).isSome = true) (steps : List (CStep n ε)) :
     ∀ (cs cs' : CState n ε) (ns : Bobo.Net.St n), R ph pa id cs ns → Bobo.Net.Inv ns →
       crun c cs steps = some cs' → ∃ ns', R ph pa id cs' ns' ∧ Bobo.Net.Inv ns' := by
@@ -154,7 +168,7 @@ theorem sim_run {n : Nat} (c : Cfg ε) (hc : c.caching = true) (hns : NoSing c) 
     | none => simp [hs] at h
     | some cs1 =>
       simp only [hs] at h
-      obtain ⟨ns1, hR1, hI1⟩ := sim_step c hc hns hLJ ph pa id hk cs cs1 ns hR hI st hs
+      obtain ⟨ns1, hR1, hI1⟩ := sim_step c hc hns ph pa id hk cs cs1 ns hR hI st hs
       exact ih cs1 cs' ns1 hR1 hI1 h
 
 end Bobo.ClusterD
